@@ -47,10 +47,37 @@ type Outcome struct {
 }
 
 var (
-	cur *Witness
-	pos int
-	out *Outcome
+	cur      *Witness
+	pos      int
+	out      *Outcome
+	registry = map[string]func(p []int64){}
 )
+
+// Register makes a harness callable by name from the native replay entry point.
+func Register(name string, f func(p []int64)) { registry[name] = f }
+
+// ReplayMain replays the witness named by VERIF_REPLAY and writes the outcome to VERIF_OUT.
+// It reports false when there is nothing to replay.
+func ReplayMain() bool {
+	path := os.Getenv("VERIF_REPLAY")
+	if path == "" {
+		return false
+	}
+	w, err := Begin(path)
+	if err != nil {
+		panic(err)
+	}
+	f, ok := registry[w.Func]
+	if !ok {
+		panic("verifrt: harness not registered: " + w.Func)
+	}
+	o := Run(func() { f(w.Params) })
+	b, _ := json.Marshal(o)
+	if err := os.WriteFile(os.Getenv("VERIF_OUT"), b, 0o644); err != nil {
+		panic(err)
+	}
+	return true
+}
 
 type stopT struct{}
 type divergeT struct{ msg string }
